@@ -42,6 +42,10 @@ var preludeForms = []string{
 	"(defun tailfew (n) (if (<= n 0) 0 (tailfew)))",
 	"(defun tailmany (n) (if (<= n 0) 0 (tailmany (- n 1) 2)))",
 	"(defun tailfew2 (n) (if (<= n 1) (tailfew2) (tailfew2 (- n 1))))",
+	"(defun tailkey (n &key k) (if (<= n 0) 0 (tailkey (- n 1) :zz 1)))",
+	"(defun tailopt (n &optional o) (if (<= n 0) 0 (tailopt (- n 1) 1 2)))",
+	"(defun tailapply (n) (if (<= n 0) 0 (apply tailapply '())))",
+	"(defun tailfuncall (n) (if (<= n 0) 0 (funcall tailfuncall)))",
 	"(defun tailmutb (n) (tailmuta))",
 	"(defun tailmuta (n) (if (<= n 0) 0 (tailmutb (- n 1))))",
 }
@@ -78,6 +82,10 @@ var leaves = []leaf{
 	{"callback-after-tail-loop-foldl", "(foldl (lambda (a x) (tailwalk x)) 0 '(3 2 -1))", true},
 	{"tail-call-too-few", "(tailfew 1)", true},
 	{"tail-call-too-many", "(tailmany 1)", true},
+	{"tail-call-unknown-key", "(tailkey 1)", true},
+	{"tail-call-too-many-optional", "(tailopt 1)", true},
+	{"tail-call-too-few-apply", "(tailapply 1)", true},
+	{"tail-call-too-few-funcall", "(tailfuncall 1)", true},
 	{"tail-call-too-few-third-turn", "(tailfew2 3)", true},
 	{"tail-call-too-few-mutual", "(tailmuta 2)", true},
 	{"callback-after-tail-loop-map-lambda", "(map 'list (lambda (x) (+ 1 (tailwalk x))) '(2 -1))", true},
